@@ -649,6 +649,7 @@ struct ClientSlot {
 
 struct Sim {
     known_auth: std::collections::HashSet<usize>,
+    lazy_backend: bool,
     cfg: Cfg,
     server: App,
     clients: Vec<ClientSlot>,
@@ -713,7 +714,7 @@ impl Sim {
             });
         }
         let track = cfg.track;
-        Sim { known_auth: Default::default(), cfg, server, clients, dead: None, track }
+        Sim { lazy_backend: false, known_auth: Default::default(), cfg, server, clients, dead: None, track }
     }
 
     fn sid(&self, e: Entity) -> String {
@@ -958,7 +959,8 @@ impl Sim {
             out.push("cleanup-timer".into());
         }
         // drain what the server handed to the backend
-        let sent: Vec<(Entity, usize, Bytes)> = self.server.world_mut().resource_mut::<RepliconServer>().drain_sent().collect();
+        let sent: Vec<(Entity, usize, Bytes)> =
+            if self.lazy_backend { Vec::new() } else { self.server.world_mut().resource_mut::<RepliconServer>().drain_sent().collect() };
         let slots = self.server.world().resource::<ClientEnts>().0.clone();
         let mut lines: Vec<(usize, String)> = Vec::new();
         for (ce, ch, msg) in sent {
@@ -1229,6 +1231,28 @@ impl Sim {
                 }
                 self.clients[c].app.world_mut().resource_mut::<RepliconClient>().set_status(RepliconClientStatus::Connected);
             }
+            "reconnect" => {
+                // Connected -> Connecting -> Connected without Disconnected; the server sees the old connection go and a new one come
+                let c: usize = t[1].parse().unwrap();
+                let max: usize = t[2].parse().unwrap();
+                if self.server.world().resource::<ClientEnts>().0[c].is_none() || !self.server.world().resource::<RepliconServer>().is_running() {
+                    return;
+                }
+                self.known_auth.remove(&c);
+                if let Some(e) = self.server.world_mut().resource_mut::<ClientEnts>().0[c].take() {
+                    if let Ok(em) = self.server.world_mut().get_entity_mut(e) {
+                        em.despawn();
+                    }
+                }
+                self.clients[c].app.world_mut().resource_mut::<RepliconClient>().set_status(RepliconClientStatus::Connecting);
+                let slot = &mut self.clients[c];
+                for q in slot.s2c.iter_mut().chain(slot.c2s.iter_mut()) {
+                    q.clear();
+                }
+                let e = self.server.world_mut().spawn(ConnectedClient { max_size: max }).id();
+                self.server.world_mut().resource_mut::<ClientEnts>().0[c] = Some(e);
+                self.clients[c].app.world_mut().resource_mut::<RepliconClient>().set_status(RepliconClientStatus::Connected);
+            }
             "authorize" => {
                 let c: usize = t[1].parse().unwrap();
                 if let Some(e) = self.server.world().resource::<ClientEnts>().0[c] {
@@ -1277,6 +1301,9 @@ impl Sim {
             "sframe" => {
                 let tick = t[1] == "1";
                 let dt: u64 = t.get(2).map(|s| s.parse().unwrap()).unwrap_or(0);
+                // `sframe <tick> <dt> nodrain`: the backend does not collect the outgoing messages in this frame (they stay queued
+                // in `RepliconServer` and go out with the next collecting frame)
+                self.lazy_backend = t.get(3) == Some(&"nodrain");
                 self.server_frame(tick, dt, out);
                 // the server loses its client entities on reset
                 let slots = self.server.world().resource::<ClientEnts>().0.clone();
